@@ -412,6 +412,25 @@ func gateTable(c *an.Ctx, s *sched, rule string, cancelColumn bool) {
 // statement; and the goroutine gets its stage bound at go time.
 func launchGuard(c *an.Ctx, s *sched, rule string) {
 	key := an.Short(s.launchFn) + ":launch"
+	// the dependency gate is not a question one may ask at any time: it cancels the stage it is asked about when
+	// a dependency has failed. Its only call is the one the per-stage loop makes for a stage it has just seen
+	// Waiting — asked about a finished stage (for a log line, say) it rewrites a final status
+	if s.gate != nil {
+		writes := false
+		for f := range c.P.Reach([]*ssa.Function{s.gate}, func(e an.CallEdge) bool { return e.Kind == an.EdgeCall && an.Outer(e.Callee).Pkg == s.gate.Pkg }) {
+			if len(an.CallsIn(f, fnUpdateStatus)) > 0 {
+				writes = true
+			}
+		}
+		if writes {
+			for _, site := range c.P.CallSitesOf(s.gate) {
+				if !an.InModule(site.Parent()) || (s.gateCall != nil && site == ssa.CallInstruction(s.gateCall)) {
+					continue
+				}
+				c.Bad(rule, an.Short(site.Parent())+":gate-call", site.Pos(), "%s calls the dependency gate %s outside the launch path: the gate cancels the stage it is asked about, so asking about a stage that is not Waiting (skipped, done, running) can overwrite its status and cancel stages that depend on it", an.Short(site.Parent()), an.Short(s.gate))
+			}
+		}
+	}
 	var goStage ssa.Value
 	for _, a := range s.launch.Call.Args {
 		if an.TypeIs(a.Type(), "pkg/scheduler", "Stage") {
@@ -755,6 +774,8 @@ func edgeWiring(c *an.Ctx, s *sched, rule string) {
 		c.Check(ok, rule, an.Short(u.fn)+":update "+u.field, u.mu.Pos(), "the edge map "+u.field+" is updated as part of AddStage", "the edge map "+u.field+" is also written by "+an.Short(u.fn)+", outside AddStage")
 	}
 	edgeRecords(c, rule)
+	// … and stay what was recorded: nobody but the graph's builders writes the adjacency lists in place
+	graphStorageWrites(c, rule)
 	// the loop covers the whole slice: plain range (no early exit besides error returns) — exits other than header must be returns with non-nil error
 	// accessors
 	for _, acc := range []struct{ name, field string }{{"To", "to"}, {"From", "from"}} {
